@@ -441,6 +441,59 @@ func ruleCycleErr(rule string) RuleFn {
 				}
 			})
 			firstOnly := len(an.CallsNamed(fn, "errors.As")) > 0
+			// ... every branch: the loop that recurses covers the whole list, and a yes from a branch is a yes
+			if joined {
+				isSelf := func(v ssa.Value) bool {
+					k, ok := v.(*ssa.Call)
+					return ok && an.StaticCallee(k) == fn
+				}
+				nLoops := 0
+				for _, l := range allLoops(fn) {
+					has := false
+					for b := range l.body {
+						for _, in := range b.Instrs {
+							if v, ok := in.(ssa.Value); ok && isSelf(v) {
+								has = true
+							}
+						}
+					}
+					if !has {
+						continue
+					}
+					nLoops++
+					if all, w := loopCoversAll(l); !all {
+						joined = false
+						_ = w
+					}
+				}
+				yes := an.BoolEdges(fn, isSelf, true)
+				if nLoops == 0 || len(yes) == 0 {
+					joined = false
+				}
+				saysNo := func(i ssa.Instruction) bool {
+					r, ok := i.(*ssa.Return)
+					if !ok || len(r.Results) != 1 {
+						return false
+					}
+					k, ok := r.Results[0].(*ssa.Const)
+					return ok && k.Value != nil && k.Value.String() == "false"
+				}
+				for _, e := range yes {
+					first := e.From.Succs[e.Succ].Instrs[0]
+					if saysNo(first) {
+						joined = false
+					} else if hit, _ := an.PathTo(fn, first, func(i ssa.Instruction) bool {
+						if saysNo(i) {
+							return true
+						}
+						// going on with the next branch after a yes
+						k, ok := i.(*ssa.Call)
+						return ok && an.StaticCallee(k) == fn
+					}, nil); hit != nil {
+						joined = false
+					}
+				}
+			}
 			c.Check(joined && !firstOnly, rule, "IsCycleDetected searches every branch of a wrapped or joined error", "Unwrap() []error handled, no errors.As pre-selection", "IsCycleDetected follows one chain only (the first dig.Error errors.As finds, or no joined errors at all): for errors.Join(other, cycleErr) or fmt.Errorf(\"%w; %w\", ...) the answer depends on the order of the operands", nil, nil)
 			c.Check(good, rule, "IsCycleDetected follows dig's own links only and is true exactly for an errCycleDetected link", "outermost dig.Error, then link by link, stop at errConstructorFailed", why, nil, nil)
 		}
